@@ -121,6 +121,14 @@ def check(chk):
                detail="otherwise the thread dies and all later saves are silently lost", construct=t.ident, text="failure isolation")
     waits = [n for n in cfg.nodes_where(lambda n: n.kind == "test" and "self._dirty.wait(" in src(n.ast))]
     chk.ob("FLOW-6", "the writer sleeps on the dirty flag", bool(waits), t.where(), construct=t.ident, text="dirty wait")
+    for n, c in lsaves:
+        g = cfg.guards_at(n.id)
+        st = [v for k, v in g.items() if k.endswith("thread_stopper.is_set()")]
+        chk.ob("FLOW-6", "the writer loop runs (and writes) while the machine has not been stopped", st == [False], t.where(c), detail=str(g),
+               construct=t.ident, text="loop polarity")
+        dw = [v for k, v in g.items() if k.startswith("self._dirty.wait(")]
+        chk.ob("FLOW-6", "a round writes only, and always, when the dirty flag was raised", dw == [True], t.where(c), detail=str(g), construct=t.ident,
+               text="write iff dirty")
     bw = [x for x in ast.walk(loop) if isinstance(x, ast.While) and "is_busy" in src(x.test)]
     chk.ob("FLOW-6", "the writer waits while another data manager is writing", bool(bw), t.where(), construct=t.ident, text="busy wait")
     # shutdown flush
@@ -237,6 +245,8 @@ def battery():
         # twins
         M("twin: snapshot var rename", DM, "            data = copy.deepcopy(self.data)\n            # save data\n            try:\n                FileManager.save(self.filename, data)", "            snapshot = copy.deepcopy(self.data)\n            # save data\n            try:\n                FileManager.save(self.filename, snapshot)", None),
         M("twin: log level", DM, "                self.info_log(\"ERROR writing file %s: %s\", self.filename, e)", "                self.warning_log(\"ERROR writing file %s: %s\", self.filename, e)", None),
+        M("writer loop polarity", DM, "        while not self.machine.thread_stopper.is_set():", "        while self.machine.thread_stopper.is_set():", "FLOW-6"),
+        M("writer skips dirty rounds", DM, "            if not self._dirty.wait(1):\n                continue", "            if self._dirty.wait(1):\n                continue", "FLOW-6"),
     ]
 
 
